@@ -1,4 +1,6 @@
 
+import numpy as np
+
 from astropy.nddata.mixins.ndslicing import NDSlicingMixin
 from astropy.wcs.wcsapi.wrappers.sliced_wcs import sanitize_slices
 
@@ -56,3 +58,10 @@ class NDCubeSlicingMixin(NDSlicingMixin):
         sliced_cube._extra_coords = self.extra_coords[item]
 
         return sliced_cube
+
+    def _slice_mask(self, item):
+        # A mask that applies to the cube as a whole (a numpy boolean scalar such as
+        # numpy.ma.nomask, a 0-d array) cannot be indexed: it is carried over as it is.
+        if self.mask is not None and not isinstance(self.mask, bool) and np.ndim(self.mask) == 0:
+            return self.mask
+        return super()._slice_mask(item)
